@@ -4,6 +4,7 @@ import (
 	"bufio"
 	"bytes"
 	"errors"
+	"fmt"
 	"io"
 
 	gots "github.com/Comcast/gots/v2"
@@ -52,7 +53,7 @@ func (c18) Info() core.Info {
 			"after an injected reader error the sink log may be any prefix covering at least the packets fully delivered before the failing Read; it must never contain a misaligned, duplicated or reordered packet",
 			"a sink that returns a short count without error is outside the statement: only integrity and order of what is delivered are checked after it",
 		},
-		RequiredProbes: []string{"frag_unaligned", "one_byte", "data_with_eof", "partial_tail", "sink_err_first", "sink_err_mid", "reader_err_mid_packet", "via_io_copy", "write_not_multiple", "write_multi_packet", "closer", "adapter_reused", "adapter_reused_after_partial_tail", "reader_is_writerto", "sink_err_full_count", "reader_fails_with_unexpected_eof", "sink_fails_with_eof_value", "more_than_4gib_in_one_call"},
+		RequiredProbes: []string{"frag_unaligned", "one_byte", "data_with_eof", "partial_tail", "sink_err_first", "sink_err_mid", "reader_err_mid_packet", "via_io_copy", "write_not_multiple", "write_multi_packet", "closer", "adapter_reused", "adapter_reused_after_partial_tail", "reader_is_writerto", "sink_err_full_count", "reader_fails_with_unexpected_eof", "sink_fails_with_eof_value", "more_than_4gib_in_one_call", "sink_type_has_own_write_method"},
 	}
 }
 
@@ -91,7 +92,7 @@ func c18Data(s *C18Script) ([]packet.Packet, []byte) {
 func (c18) Gen(r *core.Rand, tier string) interface{} {
 	s := &C18Script{Salt: r.Intn(60000)}
 	s.Mode = r.PickS("write", "readfrom", "readfrom", "iocopy")
-	s.Adapter = r.PickS("IOWriter", "IOWriteCloser", "Func")
+	s.Adapter = r.PickS("IOWriter", "IOWriteCloser", "Func", "IOWriterOverWriterSink")
 	s.Packets = r.Pick(0, 1, 1, 2, 2, 3, 4, 5, 8, 13, 24)
 	s.Sink.FailAt = -1
 	faultSrc := r.Intn(10) // swarm: at most one error source per run
@@ -162,9 +163,10 @@ func (c18) Gen(r *core.Rand, tier string) interface{} {
 		s.Reads = parties.GenReadOps(r, r.Range(0, n), r.PickS("full", "frag", "mixed"), true)
 		s.Sink.FailAt = -1
 		if r.Chance(1, 3) {
+			as := r.PickS("ueof", "weof")
 			for i := range s.Reads {
 				if s.Reads[i].Kind == "err" || s.Reads[i].Kind == "hard_err" {
-					s.Reads[i].As = "ueof" // the reader's OWN error happens to be io.ErrUnexpectedEOF
+					s.Reads[i].As = as // the reader's OWN error is io.ErrUnexpectedEOF, or wraps io.EOF
 				}
 			}
 		}
@@ -263,6 +265,12 @@ func (c18) Exec(script interface{}, c *core.Ctx) {
 	sink := parties.NewSimSink(s.Sink, c)
 	var w io.Writer
 	var closer io.Closer
+	var sinkW *parties.SimSinkW
+	defer func() {
+		if sinkW != nil && sinkW.RawWrites > 0 && !c.Failed() {
+			c.Fail("invokes_packet_writer", "adapter_bypassed_the_packet_writer", sinkW.RawWrites, "0 raw writes: every packet goes through WritePacket")
+		}
+	}()
 	switch s.Adapter {
 	case "IOWriteCloser":
 		wc := packet.IOWriteCloser(sink)
@@ -270,6 +278,10 @@ func (c18) Exec(script interface{}, c *core.Ctx) {
 		c.Probe("closer")
 	case "Func":
 		w = packet.IOWriter(packet.PacketWriterFunc(sink.WritePacket))
+	case "IOWriterOverWriterSink":
+		sinkW = &parties.SimSinkW{SimSink: sink}
+		w = packet.IOWriter(sinkW)
+		c.Probe("sink_type_has_own_write_method")
 	default:
 		w = packet.IOWriter(sink)
 	}
@@ -417,7 +429,11 @@ func (c18) Exec(script interface{}, c *core.Ctx) {
 				return
 			}
 		} else {
-			rf := w.(io.ReaderFrom)
+			rf, isRF := w.(io.ReaderFrom)
+			if !isRF {
+				c.Fail("reads_from_any_reader", "adapter_has_no_readfrom", fmt.Sprintf("%T", w), "an io.ReaderFrom")
+				return
+			}
 			var src io.Reader = sr
 			wrap := s.Wrap
 			if parties.HasErrOps(s.Reads) {
@@ -517,9 +533,9 @@ func (c18) Exec(script interface{}, c *core.Ctx) {
 			}
 			if sr.FirstErr == io.ErrUnexpectedEOF {
 				c.Probe("reader_fails_with_unexpected_eof")
-				if err == io.ErrUnexpectedEOF {
-					return
-				}
+			}
+			if err == sr.FirstErr { // identity: the reader's own error, whatever it wraps
+				return
 			}
 			// the only legitimate way not to see the error: it arrived together with the
 			// last byte of a packet and was transient (io.ReadFull semantics drop it)
@@ -569,7 +585,12 @@ func (c18) Exec(script interface{}, c *core.Ctx) {
 		}
 		var n2 int64
 		var err2 error
-		if !c.Call("packetWriter.ReadFrom(again)", func() { n2, err2 = w.(io.ReaderFrom).ReadFrom(sr2) }) {
+		rf2, isRF := w.(io.ReaderFrom)
+		if !isRF {
+			c.Fail("reads_from_any_reader", "adapter_has_no_readfrom", fmt.Sprintf("%T", w), "an io.ReaderFrom")
+			return
+		}
+		if !c.Call("packetWriter.ReadFrom(again)", func() { n2, err2 = rf2.ReadFrom(sr2) }) {
 			return
 		}
 		c.Log("again readfrom n=%d err=%v delivered=%d", n2, err2, len(sink.Log)-base)
